@@ -102,3 +102,137 @@ impl Handler<DumpConfigListeners> for crate::config::core::ConfigActor {
         MessageResult(self.listener.verif_pending())
     }
 }
+
+// ---------------------------------------------------------------------------------------------
+// registry (naming): pass-through wrappers around crate-private methods of `Service` (time is an
+// explicit argument there, so expiry can be replayed with a virtual clock) and a read-only dump
+
+use crate::naming::core::NamingActor;
+use crate::naming::model::{Instance, InstanceShortKey, InstanceUpdateTag};
+use crate::naming::service::Service;
+use std::sync::Arc;
+
+fn instance_json(i: &Instance) -> serde_json::Value {
+    serde_json::json!({
+        "ip": i.ip.as_str(), "port": i.port, "weight": i.weight, "enabled": i.enabled,
+        "healthy": i.healthy, "ephemeral": i.ephemeral, "from_grpc": i.from_grpc,
+        "from_cluster": i.from_cluster, "client_id": i.client_id.as_str(),
+        "last_modified": i.last_modified_millis,
+        "metadata": i.metadata.as_ref(),
+    })
+}
+
+/// everything the bookkeeping of one service consists of
+pub fn service_dump(s: &Service) -> serde_json::Value {
+    let mut instances: Vec<serde_json::Value> = s.instances.values().map(|i| instance_json(i)).collect();
+    instances.sort_by_key(|v| format!("{}:{}", v["ip"].as_str().unwrap_or(""), v["port"]));
+    let mut perpetual: Vec<String> = s
+        .perpetual_host_set
+        .iter()
+        .map(|k| format!("{}:{}", k.ip, k.port))
+        .collect();
+    perpetual.sort();
+    serde_json::json!({
+        "namespace": s.namespace_id.as_str(), "group": s.group_name.as_str(), "service": s.service_name.as_str(),
+        "instance_size": s.instance_size, "healthy_instance_size": s.healthy_instance_size,
+        "instances": instances, "perpetual": perpetual,
+        "healthy_timeout_items": s.get_healthy_timeout_set_item_size(),
+        "unhealthy_timeout_items": s.get_unhealthy_timeout_set_item_size(),
+    })
+}
+
+pub fn service_update_instance(
+    s: &mut Service,
+    instance: Instance,
+    tag: Option<InstanceUpdateTag>,
+    from_sync: bool,
+) -> String {
+    let (t, _, p) = s.update_instance(instance, tag, from_sync, &None);
+    format!("{:?}/{:?}", t, p)
+}
+
+pub fn service_remove_instance(s: &mut Service, ip: &str, port: u32, client_id: Option<&Arc<String>>) -> bool {
+    let key = InstanceShortKey { ip: Arc::new(ip.to_owned()), port };
+    s.remove_instance(&key, client_id).is_some()
+}
+
+/// `healthy_time` / `offline_time` are the thresholds (now - time-out), exactly as NamingActor passes them
+pub fn service_time_check(s: &mut Service, healthy_time: i64, offline_time: i64) -> (Vec<String>, Vec<String>) {
+    let (r, u) = s.time_check(healthy_time, offline_time);
+    (
+        r.iter().map(|k| format!("{}:{}", k.ip, k.port)).collect(),
+        u.iter().map(|k| format!("{}:{}", k.ip, k.port)).collect(),
+    )
+}
+
+pub fn service_refresh_process_range(s: &mut Service) {
+    s.do_refresh_process_range()
+}
+
+/// bookkeeping of the whole registry actor
+#[derive(Message)]
+#[rtype(result = "String")]
+pub struct DumpNaming;
+
+impl Handler<DumpNaming> for NamingActor {
+    type Result = MessageResult<DumpNaming>;
+
+    fn handle(&mut self, _msg: DumpNaming, _ctx: &mut Self::Context) -> Self::Result {
+        let mut services: Vec<serde_json::Value> = self.service_map.values().map(service_dump).collect();
+        services.sort_by_key(|v| format!("{}|{}|{}", v["namespace"], v["group"], v["service"]));
+        let mut clients = serde_json::Map::new();
+        for (c, set) in &self.client_instance_set {
+            let mut keys: Vec<String> = set
+                .iter()
+                .map(|k| format!("{}|{}|{}|{}:{}", k.namespace_id, k.group_name, k.service_name, k.ip, k.port))
+                .collect();
+            keys.sort();
+            clients.insert(c.as_str().to_owned(), serde_json::json!(keys));
+        }
+        let param = crate::naming::service_index::ServiceQueryParam {
+            limit: 1_000_000,
+            ..Default::default()
+        };
+        let (index_total, index_keys) = self.namespace_index.query_service_page(&param);
+        let mut index: Vec<String> = index_keys
+            .iter()
+            .map(|k| format!("{}|{}|{}", k.namespace_id, k.group_name, k.service_name))
+            .collect();
+        index.sort();
+        MessageResult(
+            serde_json::json!({"services": services, "client_instance_set": clients,
+                "index_total": index_total, "index": index,
+                "current_range": format!("{:?}", self.current_range)})
+            .to_string(),
+        )
+    }
+}
+
+/// set the two heart-beat time-outs (milliseconds) and/or run the empty-service sweep
+#[derive(Message)]
+#[rtype(result = "()")]
+pub struct NamingControl {
+    pub health_timeout_ms: Option<i64>,
+    pub instance_timeout_ms: Option<i64>,
+    pub service_timeout_ms: Option<u64>,
+    pub clear_empty_service: bool,
+}
+
+impl Handler<NamingControl> for NamingActor {
+    type Result = ();
+
+    fn handle(&mut self, msg: NamingControl, _ctx: &mut Self::Context) -> Self::Result {
+        if let Some(v) = msg.health_timeout_ms {
+            self.sys_config.instance_health_timeout_millis = v;
+        }
+        if let Some(v) = msg.instance_timeout_ms {
+            self.sys_config.instance_timeout_millis = v;
+        }
+        if let Some(v) = msg.service_timeout_ms {
+            self.sys_config.service_time_out_millis = v;
+        }
+        if msg.clear_empty_service {
+            self.verif_clear_empty_service();
+        }
+    }
+}
